@@ -292,6 +292,17 @@ impl SynthFont {
                         nodes.insert(k + 1, ((u0 + u1) / 2.0, d0));
                     }
                 } else { ag.word(); }
+                // a map that is the identity at minimum, default and maximum and bends only in between
+                if ag.chance(1, 5) {
+                    let fixed = [axis.d_min(), axis.d_default, axis.d_max()];
+                    for k in 0..nodes.len() {
+                        let d = nodes[k].1;
+                        if fixed.contains(&d) { nodes[k].0 = d; continue; }
+                        let lo = fixed.iter().copied().filter(|f| *f < d).fold(f64::MIN, f64::max);
+                        nodes[k].0 = lo + (d - lo) * 0.5;
+                    }
+                    nodes.dedup_by(|b, a| a.0 == b.0);
+                }
                 axis.map = Some(nodes);
             }
             axes.push(axis);
@@ -815,6 +826,12 @@ fn gen_naming(f: &mut SynthFont, g: &mut Gen) {
         t.push_str(&format!("feature ss01 {{\n  featureNames {{ name \"Fancy alternates\"; }};\n  sub {a} by {b};\n"));
         if fea_variant == 3 && c != b { t.push_str(&format!("  script latn;\n  language TRK;\n  sub {c} by {b};\n")); }
         t.push_str("} ss01;\n");
+        // character variants with parameter labels (a run of consecutive name ids); two features may share a label string
+        let cv = g.clone().below(3);
+        if cv >= 1 {
+            t.push_str(&format!("feature cv01 {{\n  cvParameters {{\n    FeatUILabelNameID {{ name \"First variant\"; }};\n    ParamUILabelNameID {{ name \"Default\"; }};\n    ParamUILabelNameID {{ name \"Open tail\"; }};\n  }};\n  sub {a} by {b};\n}} cv01;\n"));
+            if cv == 1 { t.push_str(&format!("feature cv02 {{\n  cvParameters {{\n    FeatUILabelNameID {{ name \"Second variant\"; }};\n    ParamUILabelNameID {{ name \"Plain\"; }};\n    ParamUILabelNameID {{ name \"Default\"; }};\n    ParamUILabelNameID {{ name \"Closed tail\"; }};\n  }};\n  sub {a} by {b};\n}} cv02;\n")); }
+        }
         f.features = Some(t);
     }
     // a STAT table written in feature code, with the elided fallback name given by id or by string
